@@ -919,10 +919,11 @@ func ConcPaths(fn *ssa.Function, cfg ConcCfg) (seqs []string, truncated bool) {
 					} else {
 						st.mem[a] = x.Val
 					}
-				} else if al, isAl := x.Addr.(*ssa.Alloc); isAl && isStructVal(x.Val) {
-					// the whole variable is overwritten: what was known about its fields is gone; what it now holds is
-					// a copy of the struct value stored (remembered under the pseudo-field "*")
-					pre := strings.TrimSuffix(addrKey(st, al), ".") + "."
+				} else if !isElemAddr(x.Addr) && isStructVal(x.Val) {
+					// the whole struct (a variable, *p, or a struct-valued field) is overwritten: what was known about
+					// its fields is gone; what it now holds is a copy of the struct value stored (remembered under the
+					// pseudo-field "*")
+					pre := strings.TrimSuffix(addrKey(st, x.Addr), ".") + "."
 					st = st.clone()
 					for k := range st.fmem {
 						if strings.HasPrefix(k, pre) {
@@ -1795,6 +1796,15 @@ func (st *ConcState) fieldKey(obj ssa.Value, field string) string {
 	return strings.TrimSuffix(addrKey(st, v), ".") + "." + field
 }
 
+// isElemAddr: the address of a field or element (as opposed to a variable or *p as a whole)
+func isElemAddr(a ssa.Value) bool {
+	switch a.(type) {
+	case *ssa.FieldAddr, *ssa.IndexAddr:
+		return true
+	}
+	return false
+}
+
 func isStructVal(v ssa.Value) bool {
 	_, ok := types.Unalias(v.Type()).Underlying().(*types.Struct)
 	return ok
@@ -1822,6 +1832,20 @@ func (st *ConcState) FieldsOf(obj ssa.Value) map[string]string {
 // path: an evident integer/boolean, or the value last stored (nil if nothing is known).
 func (st *ConcState) FieldOf(obj ssa.Value, field string) (k int64, isInt bool, val ssa.Value) {
 	key := st.fieldKey(obj, field)
+	for hop := 0; hop < 3; hop++ {
+		_, h1 := st.fmem[key]
+		_, h2 := st.fvals[key]
+		if h1 || h2 {
+			break
+		}
+		// the object is a whole copy of another struct whose field is known
+		src, copied := st.fvals[st.fieldKey(obj, "*")]
+		if !copied {
+			break
+		}
+		obj = src
+		key = st.fieldKey(obj, field)
+	}
 	if n, ok := st.fmem[key]; ok {
 		return n, true, nil
 	}
